@@ -30,6 +30,15 @@ TRUSTED = ['CPython ast', 'clang-14 front end', 'sa/pyx.py normaliser', 'multipr
 REL = 'depccg/parsing.py'
 
 
+def _parents(node, stop):
+    out = []
+    p = getattr(node, '_parent', None)
+    while p is not None and p is not stop:
+        out.append(p)
+        p = getattr(p, '_parent', None)
+    return out
+
+
 def r_validation(repo, rep, R='R11.1'):
     mod = repo.module(REL)
     for fname in ('run', 'apply_category_filters'):
@@ -97,6 +106,13 @@ def r_validation(repo, rep, R='R11.1'):
                   'a path returns normally without having excluded %s' % what)
     rep.check(n_raise >= 3, R, w, '_type_check:raises', 'each rejection raises (%d raising paths)' % n_raise, 'found %d raising paths' % n_raise)
     rep.check(every_sentence, R, w, '_type_check:all-sentences', 'every sentence of the batch is validated against its own scores', 'validation does not iterate zip(doc, score_results)')
+    # ... and the loop runs to its end before the inputs are accepted: no `return` / `break` from inside it
+    early = [x for l_ in ast.walk(tcf) if isinstance(l_, (ast.For, ast.While)) for b_ in l_.body for x in ast.walk(b_)
+             if isinstance(x, (ast.Return, ast.Break)) and not any(isinstance(p_, (ast.FunctionDef, ast.Lambda)) and p_ is not tcf for p_ in _parents(x, tcf))]
+    rep.check(not early, R, '%s:%s _type_check' % (REL, early[0].lineno if early else tcf.lineno), '_type_check:loop-runs-out',
+              'the inputs are accepted only after the loop over the sentences has run out',
+              '_type_check leaves its loop over the sentences at line %s (`%s`): only the sentences before that point are validated -- a malformed score matrix further down '
+              'the batch reaches the parser' % (early[0].lineno if early else 0, src(early[0])[:40] if early else ''))
 
 
 def chunker(repo):
